@@ -19,7 +19,9 @@
 (* redundancy = equations - parameters + defect with defect = 3 for a            *)
 (* constrained-only network (translations) and 0 as soon as fixed components or  *)
 (* observed heights remove the three translations, and the project-equation dump *)
-(* adjusted by the general class Adj gives the same corrections.                 *)
+(* adjusted by the general class Adj gives the same corrections. A vector that   *)
+(* is wrong by metres is rejected: the rest of the network is adjusted as if it  *)
+(* had not been observed, a point tied by nothing else drops out.                *)
 EXTENDS Integers, Sequences, FiniteSets, TLC, Json
 CONSTANTS Keep, Keep2, Seed
 Places == {"equator", "midlat", "nearpole", "south", "antimeridian"}
@@ -52,24 +54,28 @@ Choose == /\ net.k = 0
           /\ \E np \in 3..5, place \in Places, extra \in ExtraSets, status \in Patterns, cov \in 0..2 :
                /\ \A e \in extra : Edges[e][1] <= np /\ Edges[e][2] <= np
                /\ ((np * 7 + Len(place) * 3 + Cardinality(extra) * 11 + cov * 5 + Len(status) * 19 + Seed) % Keep = 0)
-               /\ \E noise \in 0..2, perm \in 0..3, ds \in 1..3, hs \in 1..3, dh \in 1..2, displ \in 0..1, zs \in 1..2, as \in 1..3, xs \in 1..3, idh \in 0..1 :
+               /\ \E noise \in 0..2, perm \in 0..3, ds \in 1..3, hs \in 1..3, dh \in 1..2, displ \in 0..1, zs \in 1..2, as \in 1..3, xs \in 1..3, idh \in 0..1, gross \in 0..2 :
                     /\ (status = "xyzdatum" <=> xs > 1)
                     /\ (status = "hfix" => hs > 1)                  \* without observed heights the translation along the vertical stays free
                     /\ (status = "constr" => displ = 0 /\ hs = 1 /\ dh = 1 /\ zs = 1 /\ as = 1)
                          \* the datum of a constrained network is its given coordinates; ellipsoidal heights, height differences and
                          \* angles referred to the local vertical depend (weakly) on the position and would change the defect
-                    /\ ((noise * 13 + perm * 17 + ds * 23 + hs * 29 + dh * 31 + displ * 37 + zs * 41 + as * 43 + xs * 53 + idh * 59 + np + cov + Seed) % Keep2 = 0)
-                    /\ (idh = 1 => ds > 1 \/ zs > 1)             \* instrument and target heights on distances and zenith angles
+                    /\ ((noise * 13 + perm * 17 + ds * 23 + hs * 29 + dh * 31 + displ * 37 + zs * 41 + as * 43 + xs * 53 + idh * 59 + np + cov + Seed) % Keep2 = 0 \/ gross > 0)
+                    /\ (idh = 1 => ds > 1 \/ zs > 1)
+                    /\ (gross > 0 => noise = 0 /\ status \in {"fix1", "fix2"} /\ displ = 0 /\ ds = 1 /\ hs = 1 /\ dh = 1 /\ zs = 1 /\ as = 1 /\ idh = 0)
+                    /\ (gross = 1 => extra # {})            \* a redundant vector is gross: it is rejected, the rest reproduces the network
+                    /\ (gross = 2 => extra = {} /\ (status = "fix2" => np >= 4))   \* the vector that alone ties the last point is gross: the point drops out, others remain
                     /\ net' = [k |-> 1, np |-> np, place |-> place,
                                vectors |-> [i \in 1..(np - 1) |-> Edges[i]] \o
                                            [i \in 1..Cardinality(extra) |-> Edges[CHOOSE e \in extra : Cardinality({x \in extra : x < e}) = i - 1]],
                                dists |-> DistSets[ds], heights |-> HeightSets[hs], hdiffs |-> HdiffSets[dh],
                                zeniths |-> ZenSets[zs], angles |-> AngSets[as], xyzobs |-> XyzSets[xs],
                                status |-> status, pstat |-> [i \in 1..np |-> Status(status, i)], displ |-> displ,
-                               cov |-> cov, noise |-> noise, perm |-> perm, idh |-> idh,
+                               cov |-> cov, noise |-> noise, perm |-> perm, idh |-> idh, gross |-> gross,
                                offsets |-> [i \in 1..np |-> Pts[i]],
-                               parameters |-> NonFixed(status, np),
-                               equations |-> 3 * ((np - 1) + Cardinality(extra)) + Len(DistSets[ds]) + Len(HeightSets[hs]) + Len(HdiffSets[dh])
+                               parameters |-> NonFixed(status, np) - (IF gross = 2 THEN 3 ELSE 0),
+                               dropped |-> IF gross = 2 THEN np ELSE 0,             \* the point whose only tie is rejected has no unknowns left
+                               equations |-> 3 * ((np - 1) + Cardinality(extra)) - (IF gross > 0 THEN 3 ELSE 0) + Len(DistSets[ds]) + Len(HeightSets[hs]) + Len(HdiffSets[dh])
                                              + Len(ZenSets[zs]) + Len(AngSets[as]) + 3 * Len(XyzSets[xs]),
                                defect |-> IF status = "constr" THEN 3 ELSE 0]
 Next == Choose
